@@ -155,6 +155,18 @@ where
         fwd!("powf(dual)", ComplexField::powf(yp.clone(), x.clone()), DualNum::powd(&yp, x.clone()), ComplexField::powf(ypf, xf), 8);
         fwd!("powc(dual)", ComplexField::powc(yp.clone(), x.clone()), DualNum::powd(&yp, x.clone()), ComplexField::powc(ypf, xf), 8);
         fwd!("log(dual base)", ComplexField::log(yp.clone(), xp.clone()), DualNum::ln(&yp) / DualNum::ln(&xp), ComplexField::log(ypf, xpf), 4);
+        {
+            // a base / exponent whose real part is exactly 2, 10, e or 1/2 but which is a variable
+            let c = *rng.choose(&[2.0, 10.0, std::f64::consts::E, 0.5]);
+            let c = if T::IS_F32 { c as f32 as f64 } else { c };
+            let mut sb = sz.clone();
+            sb[0] = c;
+            let sbase: T = build_all(&shape, &sb);
+            let sbf: T::F = f_of::<T>(c);
+            fwd!("log(special dual base)", ComplexField::log(yp.clone(), sbase.clone()), DualNum::ln(&yp) / DualNum::ln(&sbase), ComplexField::log(ypf, sbf), 4);
+            fwd!("powc(special dual exponent)", ComplexField::powc(yp.clone(), sbase.clone()), DualNum::powd(&yp, sbase.clone()), ComplexField::powc(ypf, sbf), 128); // exp(y ln x) loses ~|y ln x| ulp; |y ln x| <= 18 here
+            fwd!("powc(special dual base)", ComplexField::powc(sbase.clone(), x.clone()), DualNum::powd(&sbase, x.clone()), ComplexField::powc(sbf, xf), 8);
+        }
         fwd!("mul_add", ComplexField::mul_add(x.clone(), y.clone(), z.clone()), DualNum::mul_add(&x, y.clone(), z.clone()), xf * yf + zf, 2);
         fwd!("scale", ComplexField::scale(x.clone(), y.clone()), x.clone() * y.clone(), ComplexField::scale(xf, yf), 0);
         fwd!("unscale", ComplexField::unscale(x.clone(), y.clone()), x.clone() / y.clone(), ComplexField::unscale(xf, yf), 2);
